@@ -29,6 +29,16 @@ def build():
     U.struct(RR, 'SnapshotData', derive=[])
     U.add(SPEC)
     U.add(SPEC2)
+    U.add('''
+/// ASSUMED (std): HashMap::entry(k).or_default() inserts V::default() under k if k is absent and changes nothing otherwise
+#[verifier::external_body]
+pub fn vx_entry_or_default(m: &mut HashMap<PublisherHandle, CurrentObjects>, k: PublisherHandle)
+    ensures final(m)@.contains_key(k),
+        old(m)@.contains_key(k) ==> final(m)@ == old(m)@,
+        !old(m)@.contains_key(k) ==> final(m)@.dom() == old(m)@.dom().insert(k) && final(m)@[k].0@ == Map::<CurrentObjectUri, Base64>::empty()
+            && (forall |q: PublisherHandle| q != k && old(m)@.contains_key(q) ==> final(m)@[q] == old(m)@[q]),
+{ m.entry(k).or_default(); }
+''')
     km = 'obeys_key_model::<CurrentObjectUri>() && obeys_key_model::<PublisherHandle>()'
     U.impl('impl From<uri::Rsync> for CurrentObjectUri', [
         U.fn(RR, 'CurrentObjectUri', 'from', trait_full='From<uri::Rsync>', ensures=[('same_key', 'r == key_of(value)')]),
@@ -45,6 +55,12 @@ def build():
                  ('content_is_delta_applied', 'pview(*final(self), *publisher) == apply_delta_spec(pview(*old(self), *publisher), delta)'),
                  ('others_untouched', 'forall |q: PublisherHandle| q != *publisher ==> pview(*final(self), q) == pview(*old(self), q)'),
              ]),
+        # the publisher's entry is created if it is missing and LEFT ALONE if it is there (`entry().or_default()`, read as the declared
+        # function below; optional: any other way of writing it is verified as written)
+        U.fn(RR, 'SnapshotData', 'apply_publisher_added', requires=[('km', km)],
+             subst=[('self.publishers_current_objects.entry(publisher).or_default();', 'vx_entry_or_default(&mut self.publishers_current_objects, publisher);', 'R14', 'optional')],
+             ensures=[('adding_a_publisher_changes_no_content', 'forall |p: PublisherHandle| pview(*final(self), p) == pview(*old(self), p)'),
+                      ('publisher_has_an_entry', 'final(self).publishers_current_objects@.contains_key(publisher)')]),
         U.fn(RR, 'SnapshotData', 'new', ensures=[('fields', 'r.random == random && r.publishers_current_objects == publishers_current_objects')]),
         U.fn(RR, 'SnapshotData', 'clone_with_new_random', requires=[('km', km)], ensures=[
             ('same_content_for_every_publisher', 'forall |p: PublisherHandle| pview(r, p) == pview(*self, p)')]),
